@@ -220,3 +220,14 @@ def _request_immutable(ctx: Context) -> None:
                    f"`{ast.unparse(n)[:70]}` ({what}) modifies a Request after construction: a transparent re-send (or the caller's next use of the same objects) transmits a different request")
     if not sites:
         rep.ob("C03.R8", "both|*|request-immutable", True, "httpcore/", "no code modifies a Request object, its header list, URL or extensions after construction")
+
+_core_run = run
+
+
+def run(ctx: Context) -> None:  # noqa: F811
+    _core_run(ctx)
+    from . import backend
+
+    ctx.rep.rule('C03.R9', "each real backend's write() hands every byte of the buffer to the OS exactly once (write-all primitive, or a `while buffer` loop advanced by the count a partial send returns)")
+    backend.write_all(ctx, 'C03.R9')
+    ctx.rep.explanation = (ctx.rep.explanation or '') + " R9 (transport layer): every real backend stream's write() delivers the whole buffer - a write-all primitive, or a partial send inside a loop advanced by the returned count."
